@@ -54,22 +54,70 @@ def _instance_dict(obj, cls):
         return {}
 
 
+class RecMeta(type):
+    """Metaclass of the recording subclasses that replace the analysed modules' classes (a class object's own
+    __class__ cannot be reassigned): records reads and writes of class-level data attributes, i.e. state shared by
+    every instance and every thread."""
+
+    def __setattr__(cls, name, value):
+        _event('w', 'class:' + type.__getattribute__(cls, '__qualname__'), name, value)
+        type.__setattr__(cls, name, value)
+
+    def __getattribute__(cls, name):
+        v = type.__getattribute__(cls, name)
+        if not name.startswith('__') and not callable(v) and not isinstance(v, (property, classmethod, staticmethod)):
+            for k in type.__getattribute__(cls, '__mro__'):
+                if name in vars(k):
+                    if k.__module__.startswith('soupsieve'):
+                        _event('r', 'class:' + k.__qualname__, name, v)
+                    break
+        return v
+
+
+def _summary(c):
+    try:
+        return repr(c)[:80]
+    except Exception:  # noqa: BLE001
+        return '<container>'
+
+
 class RecDict(dict):
+    # every access to a recorded container is an access to the one location (container, '*')
+    def __getitem__(self, k):
+        _event('r', id(self), '*', _summary(self))
+        return dict.__getitem__(self, k)
+
+    def get(self, k, d=None):
+        _event('r', id(self), '*', _summary(self))
+        return dict.get(self, k, d)
+
+    def __contains__(self, k):
+        _event('r', id(self), '*', _summary(self))
+        return dict.__contains__(self, k)
+
+    def __iter__(self):
+        _event('r', id(self), '*', _summary(self))
+        return dict.__iter__(self)
+
+    def items(self):
+        _event('r', id(self), '*', _summary(self))
+        return dict.items(self)
+
     def __setitem__(self, k, v):
-        _event('w', id(self), repr(k), v)
+        _event('w', id(self), '*', ('set', repr(k), _val(v)))
         dict.__setitem__(self, k, v)
 
     def __delitem__(self, k):
-        _event('w', id(self), repr(k), '<del>')
+        _event('w', id(self), '*', ('del', repr(k)))
         dict.__delitem__(self, k)
 
     def pop(self, *a):
-        _event('w', id(self), repr(a[0]), '<pop>')
+        _event('w', id(self), '*', ('pop', repr(a[0])))
         return dict.pop(self, *a)
 
     def setdefault(self, k, d=None):
         if k not in self:
-            _event('w', id(self), repr(k), d)
+            _event('w', id(self), '*', ('setdefault', repr(k)))
         return dict.setdefault(self, k, d)
 
     def update(self, *a, **kw):
@@ -84,6 +132,22 @@ class RecDict(dict):
 class RecList(list):
     def _w(self, what):
         _event('w', id(self), '*', what)
+
+    def __iter__(self):
+        _event('r', id(self), '*', _summary(self))
+        return list.__iter__(self)
+
+    def __getitem__(self, i):
+        _event('r', id(self), '*', _summary(self))
+        return list.__getitem__(self, i)
+
+    def __len__(self):
+        _event('r', id(self), '*', _summary(self))
+        return list.__len__(self)
+
+    def __contains__(self, x):
+        _event('r', id(self), '*', _summary(self))
+        return list.__contains__(self, x)
 
     def append(self, x):
         self._w('<append>')
@@ -115,16 +179,24 @@ class RecList(list):
 
 
 class RecSet(set):
+    def __contains__(self, x):
+        _event('r', id(self), '*', _summary(self))
+        return set.__contains__(self, x)
+
+    def __iter__(self):
+        _event('r', id(self), '*', _summary(self))
+        return set.__iter__(self)
+
     def add(self, x):
-        _event('w', id(self), repr(x), '<add>')
+        _event('w', id(self), '*', ('add', repr(x)))
         set.add(self, x)
 
     def discard(self, x):
-        _event('w', id(self), repr(x), '<discard>')
+        _event('w', id(self), '*', ('discard', repr(x)))
         set.discard(self, x)
 
     def remove(self, x):
-        _event('w', id(self), repr(x), '<remove>')
+        _event('w', id(self), '*', ('remove', repr(x)))
         set.remove(self, x)
 
     def update(self, *a):
@@ -134,6 +206,11 @@ class RecSet(set):
     def clear(self):
         _event('w', id(self), '*', '<clear>')
         set.clear(self)
+
+
+def _is_value_class(v):
+    """Immutable IR value classes (slotted, pickled by class identity) are left alone."""
+    return any(k.__name__ in ('Immutable', 'ImmutableDict') for k in v.__mro__)
 
 
 def discover(modules):
@@ -195,6 +272,26 @@ def discover(modules):
         else:
             object.__setattr__(owner, key, new) if not isinstance(owner, dict) else dict.__setitem__(owner, key, new)
 
+    def defaults(fn, where):
+        """Mutable default arguments are state shared by every call."""
+        fn = getattr(fn, '__func__', fn)
+        if not isinstance(fn, types.FunctionType):
+            return
+        if fn.__defaults__:
+            new = []
+            for i, d in enumerate(fn.__defaults__):
+                if type(d) in (list, dict, set):
+                    d = {list: RecList, dict: RecDict, set: RecSet}[type(d)](d)
+                    seen.add(id(d))
+                    found.append((f'{where} default #{i}', type(d).__name__, 'default argument'))
+                new.append(d)
+            fn.__defaults__ = tuple(new)
+        if fn.__kwdefaults__:
+            for k2, d in list(fn.__kwdefaults__.items()):
+                if type(d) in (list, dict, set):
+                    fn.__kwdefaults__[k2] = {list: RecList, dict: RecDict, set: RecSet}[type(d)](d)
+                    found.append((f'{where} default {k2}', type(d).__name__, 'default argument'))
+
     for m in modules:
         for k, v in list(vars(m).items()):
             if k.startswith('__'):
@@ -203,9 +300,25 @@ def discover(modules):
                 for ck, cv in list(vars(v).items()):
                     if not ck.startswith('__'):
                         walk(cv, f'{m.__name__}.{v.__name__}.{ck}', v, ck)
+                    defaults(cv, f'{m.__name__}.{v.__name__}.{ck}')
+                if type(v) is type and not issubclass(v, (BaseException,)) and not _is_value_class(v):
+                    try:
+                        sub = RecMeta(v.__name__, (v,), {'__module__': v.__module__, '__qualname__': v.__qualname__,
+                                                         '__doc__': v.__doc__})
+                        setattr(m, k, sub)
+                        found.append((f'{m.__name__}.{v.__name__}', 'class', 'class attributes (recording subclass)'))
+                    except TypeError:
+                        pass
+            elif isinstance(v, types.FunctionType) and v.__module__ == m.__name__:
+                defaults(v, f'{m.__name__}.{k}')
             else:
                 walk(v, f'{m.__name__}.{k}', m, k)
     return found
+
+
+def class_snapshot(modules):
+    return {(m.__name__, k, a): id(x) for m in modules for k, v in vars(m).items()
+            if isinstance(v, type) and v.__module__ == m.__name__ for a, x in vars(v).items() if not a.startswith('__')}
 
 
 def globals_snapshot(modules):
